@@ -20,6 +20,7 @@ import io
 import json
 import math
 import os
+import tempfile
 import random
 
 from harness import common as C
@@ -524,6 +525,158 @@ def stock_job(path):
     return out
 
 
+# ------------------------------------------------------------------ the same networks written as a case FILE
+
+def to_file_spec(spec):
+    """the part of a generated network a MATPOWER file can carry: system base 100 MVA, line charging only (no line
+    conductance, no end shunts), loads and shunts summed per bus, generators not on the slack bus, no isolated bus"""
+    import copy
+    sp = copy.deepcopy(spec)
+    sp['mva'] = 100.0
+    nb = len(sp['buses'])
+    used = {l['bus1'] for l in sp['lines'] if l['u']} | {l['bus2'] for l in sp['lines'] if l['u']}
+    if len(used) != nb:
+        return None
+    for ln in sp['lines']:
+        for f in ('g', 'b1', 'g1', 'b2', 'g2'):
+            ln[f] = 0.0
+        ln['Sn'], ln['Vn1'], ln['Vn2'] = 100.0, sp['buses'][ln['bus1']]['Vn'], sp['buses'][ln['bus2']]['Vn']
+    sb = sp['slacks'][0]['bus']
+    sp['pvs'] = [g for g in sp['pvs'] if g['bus'] != sb]
+    for g in sp['pvs'] + sp['slacks']:
+        g['Sn'] = 100.0
+    pq, sh = {}, {}
+    for q in sp['pqs']:
+        if q['u']:
+            a = pq.setdefault(q['bus'], [0.0, 0.0])
+            a[0] += q['p0']
+            a[1] += q['q0']
+    for x in sp['shunts']:
+        if x['u']:
+            Vb = sp['buses'][x['bus']]['Vn']
+            ky = 1.0     # generated values are system-base values
+            a = sh.setdefault(x['bus'], [0.0, 0.0])
+            a[0] += x['g'] * ky
+            a[1] += x['b'] * ky
+    sp['pqs'] = [{'bus': b, 'u': 1.0, 'p0': v[0], 'q0': v[1], 'Vn': sp['buses'][b]['Vn']} for b, v in sorted(pq.items())
+                 if v[0] != 0 or v[1] != 0]
+    sp['shunts'] = [{'bus': b, 'u': 1.0, 'g': v[0], 'b': v[1], 'Sn': 100.0, 'Vn': sp['buses'][b]['Vn']}
+                    for b, v in sorted(sh.items()) if v[0] or v[1]]
+    return sp
+
+
+def matpower_text(sp, ratio_style):
+    """MATPOWER case text of a file spec, written by the harness (MW / MVAr / degrees, as the format defines them)"""
+    nb = len(sp['buses'])
+    sb = sp['slacks'][0]['bus']
+    pvb = {g['bus'] for g in sp['pvs']}
+    pq = {q['bus']: q for q in sp['pqs']}
+    sh = {x['bus']: x for x in sp['shunts']}
+    L = ['function mpc = gen_case', "mpc.version = '2';", 'mpc.baseMVA = 100;', 'mpc.bus = [']
+    for k, b in enumerate(sp['buses']):
+        ty = 3 if k == sb else (2 if k in pvb else 1)
+        q, x = pq.get(k), sh.get(k)
+        L.append('\t%d\t%d\t%r\t%r\t%r\t%r\t1\t1\t0\t%r\t1\t1.1\t0.9;' % (
+            k + 1, ty, (q['p0'] * 100.0) if q else 0, (q['q0'] * 100.0) if q else 0,
+            (x['g'] * 100.0) if x else 0, (x['b'] * 100.0) if x else 0, b['Vn']))
+    L += ['];', 'mpc.gen = [']
+    for g in sp['pvs'] + sp['slacks']:
+        L.append('\t%d\t%r\t0\t9900\t-9900\t%r\t100\t%d\t9900\t-9900\t0\t0\t0\t0\t0\t0\t0\t0\t0\t0\t0;' % (
+            g['bus'] + 1, g['p0'] * 100.0, g['v0'], int(g['u'])))
+    L += ['];', 'mpc.branch = [']
+    for ln in sp['lines']:
+        ratio = ln['tap']
+        if ratio == 1.0 and ratio_style == 'zero':
+            ratio = 0          # MATPOWER: 0 stands for the nominal ratio 1
+        L.append('\t%d\t%d\t%r\t%r\t%r\t0\t0\t0\t%r\t%r\t%d\t-360\t360;' % (
+            ln['bus1'] + 1, ln['bus2'] + 1, ln['r'], ln['x'], ln['b'], ratio, math.degrees(ln['phi']), int(ln['u'])))
+    L += ['];', '']
+    return '\n'.join(L)
+
+
+def file_job(arg):
+    """a generated network written as a MATPOWER file, read and solved by the real code; the balance is then
+    evaluated on the data of the SPEC (a reference System built through System.add and never solved) at the voltages
+    and generator outputs the file-based run reports"""
+    spec, seed = arg
+    import numpy as np
+    import andes
+    out = {'oracle': [], 'skip': None, 'info': {}}
+    r = random.Random(seed)
+    try:
+        sp = to_file_spec(spec)
+        if sp is None:
+            out['skip'] = 'isolated bus'
+            return out
+        sp['slacks'][0]['a0'] = 0.0       # the reader takes the slack angle from the bus row (written as 0)
+        style = r.choice(['one', 'zero'])
+        if style == 'zero' and any(l['tap'] == 1.0 and l['phi'] != 0.0 for l in sp['lines']):
+            out['info']['zero_ratio_with_shift'] = True
+        d = tempfile.mkdtemp(prefix='c01m-', dir=C.WORK)
+        try:
+            path = os.path.join(d, 'gen_case.m')
+            with open(path, 'w') as f:
+                f.write(matpower_text(sp, style))
+            sink = io.StringIO()
+            with contextlib.redirect_stdout(sink):
+                sm = andes.load(path, no_output=True, default_config=True)
+                sm.Bus.config.flat_start = spec['flat']
+                ok = bool(sm.PFlow.run())
+        finally:
+            import shutil
+            shutil.rmtree(d, ignore_errors=True)
+        out['conv'] = ok
+        if not ok:
+            return out
+        ref, bidx = build(sp, BASE_VARIANT)
+        pos_m = {int(i): k for k, i in enumerate(sm.Bus.idx.v)}
+        for k in range(len(sp['buses'])):
+            u = ref.Bus.idx2uid(bidx[k])
+            ref.Bus.v.v[u] = sm.Bus.v.v[pos_m[k + 1]]
+            ref.Bus.a.v[u] = sm.Bus.a.v[pos_m[k + 1]]
+        if sm.PV.n != len(sp['pvs']) or sm.Slack.n != 1 or [int(b) - 1 for b in sm.PV.bus.v] != [g['bus'] for g in sp['pvs']]:
+            out['oracle'].append(('file-generators-differ', 'generators read from the file are not those written: PV buses %r, written %r'
+                                  % (list(sm.PV.bus.v), [g['bus'] + 1 for g in sp['pvs']])))
+            return out
+        ref.PV.q.v[:] = sm.PV.q.v
+        ref.Slack.p.v[:] = sm.Slack.p.v
+        ref.Slack.q.v[:] = sm.Slack.q.v
+        bad, info = oracle(ref, tol=float(sm.PFlow.config.tol))
+        out['info'].update({'worst': info['worst'], 'style': style,
+                            'phase_shifters': sum(1 for l in sp['lines'] if l['phi'] != 0.0 and l['u']),
+                            'unity_phase_shifters': sum(1 for l in sp['lines'] if l['phi'] != 0.0 and l['tap'] == 1.0 and l['u'])})
+        out['oracle'] = [('file:' + k, 'network written as a MATPOWER file (%s): %s' % (style, w)) for k, w in bad]
+    except Exception:     # noqa
+        import traceback
+        out['error'] = traceback.format_exc()[-800:]
+    return out
+
+
+def run_files(ctx, specs):
+    import multiprocessing as mp
+    jobs = [(sp, ctx.rng.randrange(1 << 30)) for sp in specs]
+    with mp.get_context('fork').Pool(min(8, max(1, len(jobs)))) as pool:
+        res = pool.map(file_job, jobs, chunksize=1)
+    for (spec, seed), r in zip(jobs, res):
+        case = {'spec': spec, 'seed': seed, 'stream': 'matpower-file'}
+        if r.get('error'):
+            ctx.oracle_fail('file-exception:' + r['error'].strip().split('\n')[-1][:60],
+                            'reading / solving a generated MATPOWER file raised: ' + r['error'][-400:], case)
+            continue
+        if r['skip']:
+            ctx.count('file-skipped:' + r['skip'])
+            continue
+        ctx.case(json.dumps(case, sort_keys=True), {'stream': 'matpower-file', 'info': r['info']})
+        ctx.count('file-networks')
+        ctx.count('file-converged' if r.get('conv') else 'file-not-converged')
+        ctx.count('file-phase-shifters', r['info'].get('phase_shifters', 0))
+        ctx.count('file-unity-ratio-phase-shifters', r['info'].get('unity_phase_shifters', 0))
+        if 'worst' in r['info']:
+            ctx.cov['max_file_mismatch'] = max(ctx.cov.get('max_file_mismatch', 0.0), r['info']['worst'])
+        for key, what in r['oracle']:
+            ctx.oracle_fail(key, what, case)
+
+
 STOCK_QUICK = ['ieee14/ieee14.raw', 'matpower/case14.m', 'kundur/kundur_full.xlsx', 'ieee14/ieee14.json']
 STOCK_THOROUGH = STOCK_QUICK + ['matpower/case118.m', 'ieee39/ieee39.xlsx', 'npcc/npcc.xlsx', 'matpower/case5.m',
                                 'matpower/case300.m', 'wecc/wecc.xlsx', 'ieee14/ieee14_pvd1.xlsx', 'GBnetwork/GBnetwork.m']
@@ -633,6 +786,16 @@ def run(ctx):
         spec = gen_spec(rng, nmax if k % 7 else 30, asym=True if k == 1 else (False if k == 0 else None))
         jobs.append((spec, gen_variant(rng), rng.randrange(1 << 30), ctx.thorough or k % 6 == 0))
     res = run_jobs(ctx, jobs)
+    fspecs = []
+    while len(fspecs) < ctx.n(16, 120):
+        sp = gen_spec(rng, 10, asym=False)
+        if len(fspecs) % 2 == 0:
+            # a pure phase shifter at nominal ratio on an online branch
+            on = [l for l in sp['lines'] if l['u']]
+            ln = rng.choice(on)
+            ln['tap'], ln['phi'] = 1.0, round(rng.choice([-1, 1]) * rng.uniform(0.03, 0.12), 4)
+        fspecs.append(sp)
+    run_files(ctx, fspecs)
     conv = sum(1 for r in res if r.get('conv'))
     ctx.cov['flat_start_convergence'] = '%d of %d generated networks converged' % (conv, len(res))
     if len(res) >= 10 and conv < 0.8 * len(res):
